@@ -326,6 +326,14 @@ func runBatchV(prop string, seed uint64, tier string, indices []int, workers int
 	for k, i := range indices {
 		parts[k%workers] = append(parts[k%workers], i)
 	}
+	if tag == "a" && os.Getenv("DST_BATTERY") != "0" {
+		// the battery (see BatteryBase) is the last thing every long-lived node of the main pass executes
+		for j := range parts {
+			if len(parts[j]) > 0 {
+				parts[j] = append(parts[j], BatteryBase+j)
+			}
+		}
+	}
 	for j := 0; j < workers; j++ {
 		if len(parts[j]) == 0 {
 			continue
